@@ -4,6 +4,9 @@ VERIF = os.path.dirname(os.path.dirname(os.path.abspath(__file__)))
 ALL = ["C%02d" % i for i in range(1, 19)]
 
 CLAIMS = {
+    "C08": dict(cat="proof", design="§7 C08", technique="Lean 4 theorems (history induction; interleaving invariant) about a model in which only coherent compile caches persist + state-footprint correspondence on the real object graph + history/thread differential against a pristine interpreter",
+                text="Theorems (Lean kernel): modelling a conversion as a program over the compile caches, for EVERY history on one converter each output equals the one-shot output, and for EVERY schedule of the atomic dictionary reads/writes of any number of concurrent conversions each finished thread returned its one-shot result (and a scheduled thread finishes). The abstraction 'only the scanner caches, _cached_modules and __cached_parsers persist, each entry being what its key compiles to' is checked, not assumed: a deep snapshot of everything reachable from the converter and from the mistune modules' globals (function defaults, closures, class attributes included) is compared before/after real calls. The property itself is evaluated on histories (reference links, footnotes, abbreviations, TOC ids, RST image counters, deep nesting) against a fork()ed pristine interpreter, on mistune.html and markdown() caches, and on 8-thread runs with a 1 µs switch interval.",
+                note="Trusted: Lean kernel + standard axioms; the action alphabet (dict get/set atomic under the GIL) — real preemption is covered only by the threaded runs; objects unreachable from the converter or mistune module globals are outside the footprint."),
     "C14": dict(cat="proof", design="§7 C14", technique="Lean 4 theorems about the footnote numbering machine for all definition sets and reference sequences + replay of the real handler's call log through the model",
                 text="Theorems (Lean kernel) for ALL definition sets and reference sequences: emitted notes are the distinct defined referenced keys in order of first reference, duplicate-free; every reference occurrence becomes a footnote_ref iff defined and carries the final number of its note (repeats reuse it); every emitted note is referenced; items are numbered 1..n. Tied to the code by replaying the exact call sequence of parse_inline_footnote on generated documents through the model (indices, final notes, section items). The HTML-level bijection (ids/hrefs, one section, after the body, AST carries the same notes) is evaluated on the implementation.",
                 note="Trusted: Lean kernel + standard axioms; that the handler is called in document order and sees the complete definition table is observed in the call log, not proved; HTML template shapes of footnote_ref/footnote_item are matched by regex in the oracle."),
